@@ -61,6 +61,63 @@ class Commuter(ast.NodeTransformer):
         return node
 
 
+class Inliner(ast.NodeTransformer):
+    """t = <pure expression> ; <next statement using t exactly once, t used nowhere else>  ->  next statement with the expression in place of t"""
+
+    PURE_CALLS = ("len", "range", "tuple", "list", "int", "float", "str", "abs", "min", "max", "isinstance")
+
+    def __init__(self):
+        self.count = 0
+
+    def pure(self, e):
+        for n in ast.walk(e):
+            if isinstance(n, ast.Call):
+                d = ast.unparse(n.func)
+                if not (d in self.PURE_CALLS or d.startswith(("numpy.", "np.", "math."))) or d.startswith(("numpy.random", "np.random")) or d.endswith((".shuffle", ".sort")):
+                    return False
+            if isinstance(n, (ast.Yield, ast.YieldFrom, ast.Await, ast.NamedExpr, ast.Lambda, ast.ListComp, ast.GeneratorExp, ast.DictComp, ast.SetComp, ast.Starred)):
+                return False
+        return True
+
+    def visit_FunctionDef(self, node):
+        self.generic_visit(node)
+        uses = {}
+        stores = {}
+        for n in ast.walk(node):
+            if isinstance(n, ast.Name):
+                if isinstance(n.ctx, ast.Load):
+                    uses[n.id] = uses.get(n.id, 0) + 1
+                else:
+                    stores[n.id] = stores.get(n.id, 0) + 1
+        params = {a.arg for a in node.args.args + node.args.kwonlyargs}
+        for blk_owner in ast.walk(node):
+            for fld in ("body", "orelse", "finalbody"):
+                blk = getattr(blk_owner, fld, None)
+                if not (isinstance(blk, list) and blk and isinstance(blk[0], ast.stmt)):
+                    continue
+                i = 0
+                while i + 1 < len(blk):
+                    a, b = blk[i], blk[i + 1]
+                    if isinstance(a, ast.Assign) and len(a.targets) == 1 and isinstance(a.targets[0], ast.Name) and self.pure(a.value) \
+                            and isinstance(b, (ast.Assign, ast.Return, ast.Expr, ast.AugAssign)):
+                        t = a.targets[0].id
+                        here_ = [n for n in ast.walk(b) if isinstance(n, ast.Name) and n.id == t and isinstance(n.ctx, ast.Load)]
+                        stored_in_b = any(isinstance(n, ast.Name) and n.id == t and not isinstance(n.ctx, ast.Load) for n in ast.walk(b))
+                        if t not in params and stores.get(t, 0) == 1 and uses.get(t, 0) == 1 and len(here_) == 1 and not stored_in_b \
+                                and not any(isinstance(n, (ast.Lambda, ast.ListComp, ast.GeneratorExp, ast.DictComp, ast.SetComp)) for n in ast.walk(b)):
+                            class Sub(ast.NodeTransformer):
+                                def visit_Name(self_, n):
+                                    return a.value if (n.id == t and isinstance(n.ctx, ast.Load)) else n
+                            blk[i + 1] = Sub().visit(b)
+                            del blk[i]
+                            self.count += 1
+                            continue
+                    i += 1
+        return node
+
+    visit_AsyncFunctionDef = visit_FunctionDef
+
+
 class KwCaller(ast.NodeTransformer):
     """f(a, b) -> f(x=a, y=b) for calls whose callee resolves inside the package (module-level functions by name, methods through self./cls.) and has no *args"""
 
@@ -179,6 +236,8 @@ def build(suffix, mode="rename"):
                     shutil.copy(src, dst)
                     continue
                 r = KwCaller(prog, m_)
+            elif mode == "inline":
+                r = Inliner()
             else:
                 r = Renamer(suffix) if mode == "rename" else Commuter()
             tree = r.visit(tree)
@@ -230,6 +289,8 @@ def main():
     tmp, nf, nn = build(suffix, mode)
     if mode == "rename":
         print("renamed copy: %d files, %d local-name occurrences renamed (suffix %s), re-emitted by ast.unparse" % (nf, nn, suffix))
+    elif mode == "inline":
+        print("inlined copy: %d files, %d single-use pure temporaries substituted into the statement that follows them, re-emitted by ast.unparse" % (nf, nn))
     elif mode == "kwcalls":
         print("keyword-call copy: %d files, %d calls of package functions / own methods rewritten from positional to keyword arguments, re-emitted by ast.unparse" % (nf, nn))
     else:
